@@ -165,18 +165,7 @@ def gen(stratum, rng, tier):
     }
 
 
-_shrink_budget = [400]  # candidates per worker process: enough to minimise several witnesses, bounded under mass failure
-
-
 def shrink(case):
-    for c in _shrink(case):
-        if _shrink_budget[0] <= 0:
-            return
-        _shrink_budget[0] -= 1
-        yield c
-
-
-def _shrink(case):
     if case.get("kind") != "g":
         return
     edges = case["edges"]
